@@ -199,6 +199,10 @@ enum Mu {
 	Dressed(FeeV),
 	/// a consistent dishonest reply (see Dishonest) relabelled as the reply to an invoice
 	DressedDishonest(DisV),
+	/// (invoice flow) a consistent reply of a dishonest payer: same inputs, the change adjusted, the partial
+	/// signature made over the stated fee fields, which are below the minimum for the transaction:
+	/// false = plain fee field, true = the same fee with a non-zero fee shift
+	PayerLowFee(bool),
 }
 
 fn alphabet() -> Vec<Mu> {
@@ -274,6 +278,8 @@ fn alphabet() -> Vec<Mu> {
 	for d in [DisV::FeeShift, DisV::FeeRaised].iter() {
 		v.push(Mu::DressedDishonest(*d));
 	}
+	v.push(Mu::PayerLowFee(false));
+	v.push(Mu::PayerLowFee(true));
 	v
 }
 
@@ -323,6 +329,8 @@ struct Env {
 	m_commit: Commitment,
 	penv: Option<PEnv>,
 	flow: Flow,
+	/// (invoice flow) the payer's inputs: key id and value
+	payer_inputs: Vec<(crate::keychain::Identifier, u64)>,
 }
 
 fn flip_sig(s: &Signature, byte: usize) -> Signature {
@@ -373,6 +381,39 @@ fn resigned_reply(v: &SlateV4, first: &SlateV4, pe: &PEnv, outs: &[u64], sig_fee
 		let excess = Commitment::from_pubkey(secp, &blind_sum).ok()?;
 		p.rsig = Some(pp_sign(proof_amount, &excess, p.saddr, addr_sk(&pe.recipient.0, pe.recipient.1)));
 	}
+	Some(nv)
+}
+
+/// A consistent reply of a dishonest invoice payer: the same inputs, one change output worth
+/// total - amount - fee, fresh excess and nonce, the partial signature over the kernel message for `fee`.
+fn payer_reply(v: &SlateV4, first: &SlateV4, inputs: &[(crate::keychain::Identifier, u64)], amount: u64, fee: FeeFields) -> Option<SlateV4> {
+	use crate::core::libtx::{aggsig, build, ProofBuilder};
+	use crate::util::secp::key::PublicKey;
+	let kc = keychain_for("A");
+	let secp = kc.secp();
+	let builder = ProofBuilder::new(&kc);
+	let total: u64 = inputs.iter().map(|i| i.1).sum();
+	let change = total.checked_sub(amount)?.checked_sub(fee.fee())?;
+	let mut elems: Vec<_> = inputs.iter().map(|(id, val)| build::coinbase_input(*val, id.clone())).collect();
+	elems.push(build::output(change, crate::keychain::ExtKeychain::derive_key_id(3, 0, 0, 950, 0)));
+	let (tx, bf) = build::partial_transaction(Slate::empty_transaction(), &elems, &kc, &builder).ok()?;
+	let xr = SecretKey::new(secp, &mut rand::thread_rng());
+	let kr = aggsig::create_secnonce(secp).ok()?;
+	let off = kc.blind_sum(&BlindSum::new().add_blinding_factor(bf).sub_blinding_factor(BlindingFactor::from_secret_key(xr.clone()))).ok()?;
+	let issuer = first.sigs.get(0)?;
+	let xs = PublicKey::from_secret_key(secp, &xr).ok()?;
+	let nonce = PublicKey::from_secret_key(secp, &kr).ok()?;
+	let nonce_sum = PublicKey::from_combination(secp, vec![&issuer.nonce, &nonce]).ok()?;
+	let blind_sum = PublicKey::from_combination(secp, vec![&issuer.xs, &xs]).ok()?;
+	let msg = KernelFeatures::Plain { fee }.kernel_sig_msg().ok()?;
+	let part = aggsig::calculate_partial_sig(secp, &xr, &kr, &nonce_sum, Some(&blind_sum), &msg).ok()?;
+	let mut nv = v.clone();
+	nv.off = off;
+	nv.fee = fee;
+	nv.sigs = vec![ParticipantDataV4 { xs, nonce, part: Some(part) }];
+	let mut coms: Vec<CommitsV4> = tx.inputs_committed().iter().map(|c| CommitsV4 { f: crate::libwallet::slate_versions::v4::OutputFeaturesV4(1), c: *c, p: None }).collect();
+	coms.extend(tx.outputs().iter().map(CommitsV4::from));
+	nv.coms = Some(coms);
 	Some(nv)
 }
 
@@ -491,6 +532,16 @@ fn apply(mu: &Mu, v: &mut SlateV4, e: &Env) -> bool {
 					Some(x) => Some(x),
 					None => return false,
 				},
+			}
+		}
+		Mu::PayerLowFee(shift) => {
+			if e.flow != Flow::Invoice || e.payer_inputs.is_empty() {
+				return false;
+			}
+			let low = FeeFields::new(if *shift { 1 } else { 0 }, std::cmp::max(1, e.fee.fee() / 1000)).unwrap();
+			match payer_reply(v, &first, &e.payer_inputs, e.amount, low) {
+				Some(nv) => *v = nv,
+				None => return false,
 			}
 		}
 		Mu::Dressed(f) => {
@@ -689,6 +740,9 @@ struct Prep {
 	fee_shift: u8,
 	/// excess of the head block's coinbase kernel (an on-chain kernel that is not this transaction's)
 	cb_excess: String,
+	/// (invoice flow) the payer's inputs as recorded in its context: key id (hex) and value
+	#[serde(default)]
+	payer_inputs: Vec<(String, u64)>,
 }
 
 fn e2s(x: crate::libwallet::Error) -> String {
@@ -768,7 +822,8 @@ fn prepare(dir: &str, base: &Snapshot, ex: &Ex) -> Result<Snapshot, String> {
 			}
 		}
 		let f = ctx.fee.ok_or("payer context has no fee")?;
-		Ok(Prep { first: slate_to_json(&first), reply: slate_to_json(&reply), amount, pre_a, pre_b, fee: f.fee(), fee_shift: f.fee_shift(), cb_excess: head_coinbase_excess(&w).0.to_vec().to_hex() })
+		let payer_inputs = ctx.input_ids.iter().map(|(id, _, v)| (id.to_hex(), *v)).collect();
+		Ok(Prep { first: slate_to_json(&first), reply: slate_to_json(&reply), amount, pre_a, pre_b, fee: f.fee(), fee_shift: f.fee_shift(), cb_excess: head_coinbase_excess(&w).0.to_vec().to_hex(), payer_inputs })
 	})();
 	match r {
 		Ok(p) => {
@@ -901,7 +956,7 @@ fn build_mutated(ex: &Ex, mus: &[Mu], p: &Prep, art: &BaseArt) -> Option<(Slate,
 		let recipient = if ex.flow == Flow::SelfSend { ("A".to_owned(), 1) } else { ("B".to_owned(), 0) };
 		excess_of(&first, &reply).map(|excess| PEnv { amount: p.amount, excess, other_excess: Commitment::from_vec(util::from_hex(&p.cb_excess).unwrap()), sender: ("A".to_owned(), 0), recipient, fee: first.fee_fields.clone() })
 	};
-	let env = Env { first, other, y2, amount: p.amount, fee, m_commit: Commitment::from_vec(util::from_hex(&art.m_commit).unwrap()), penv, flow: ex.flow };
+	let env = Env { first, other, y2, amount: p.amount, fee, m_commit: Commitment::from_vec(util::from_hex(&art.m_commit).unwrap()), penv, flow: ex.flow, payer_inputs: p.payer_inputs.iter().map(|(h, v)| (crate::keychain::Identifier::from_hex(h).unwrap(), *v)).collect() };
 	let mut v4 = SlateV4::from(&reply);
 	let honest_json = serde_json::to_string(&v4).unwrap();
 	for m in mus {
@@ -1028,7 +1083,7 @@ fn run_case_inner(w: &World, ex: &Ex, mus: &[Mu], p: &Prep, mutated: &Slate, cha
 				return out;
 			}
 			let mut exp_outputs = exp_change.clone();
-			let deviating = mus.iter().any(|m| matches!(m, Mu::Dishonest(_) | Mu::DressedDishonest(_) | Mu::Com(ComV::SplitRecipientOutput)));
+			let deviating = mus.iter().any(|m| matches!(m, Mu::Dishonest(_) | Mu::DressedDishonest(_) | Mu::PayerLowFee(_) | Mu::Com(ComV::SplitRecipientOutput)));
 			if deviating {
 				// a deviating recipient chose its own output(s): they are whatever its reply carried, and (rewound
 				// with the recipient's keychain) must still be worth exactly the agreed amount
